@@ -80,14 +80,14 @@ Theorem C10_char_token_value_platform p cpp sp v : c_char sp v -> p_char_bit p =
 Proof. exact (char_token_value_platform p cpp sp v). Qed.
 Print Assumptions C10_char_token_value_platform.
 
-(* refuted for single octal escapes that do not start with 0: Token::isCChar counts '\377' as three
-   characters (replaceEscapeSequences), the platform adjustment is skipped (finding, replayed on the binary) *)
-Theorem C10_octal_escape_char_token_refuted :
-  exists p s z n, In p Gen_platforms /\ p_sign p = 117 /\
-                  char_literal_to_ll s = Some z /\ narrow_nbytes s = Some 1 /\ token_char_count s = Some n /\
-                  (forall cpp, char_token_value p cpp n z <> char_value_on p 255).
-Proof. exact octal_escape_char_token_refuted. Qed.
-Print Assumptions C10_octal_escape_char_token_refuted.
+(* an octal escape of one to three digits is one character for Token::isCChar, so the plain-char
+   adjustment applies to it as well (true since /repo 6f10427; before, refuted by '\377' on arm32-wchar_t4,
+   which was counted as three characters) *)
+Theorem C10_token_char_count_octal_escape ds :
+  (1 <= length ds <= 3)%nat -> forallb is_octdigit ds = true ->
+  token_char_count (39 :: 92 :: ds ++ [39]) = Some 1.
+Proof. exact (token_char_count_octal_escape ds). Qed.
+Print Assumptions C10_token_char_count_octal_escape.
 
 (* every entry of the table regenerated from Platform::set and platforms/*.xml is well-formed
    (finite statement: the table is rewritten from the source on every run) *)
@@ -145,5 +145,10 @@ Example C10_ex_char_ff : char_literal_to_ll [39;92;120;102;102;39] = Some (-1)%Z
 Proof. vm_compute. reflexivity. Qed.
 Example C10_ex_cast : truncate_int_value 300 1 false = 44%Z /\ truncate_int_value 200 1 true = (-56)%Z.
 Proof. vm_compute. split; reflexivity. Qed.
+Example C10_ex_octal_escape_arm32 :
+  token_char_count [39; 92; 51; 55; 55; 39] = Some 1 /\
+  char_literal_to_ll [39; 92; 51; 55; 55; 39] = Some (-1)%Z /\
+  char_token_value plat_arm32_wchar_t4 false 1 (-1) = char_value_on plat_arm32_wchar_t4 255.   (* '\377' *)
+Proof. exact octal_escape_char_token_now. Qed.
 Example C10_ex_platform : exists p, In p Gen_platforms /\ platform_sane p = true.
 Proof. exists plat_unix64. split; [vm_compute; tauto | vm_compute; reflexivity]. Qed.
